@@ -81,7 +81,8 @@ Lemma phrase_candidates f st p :
   phrase_class f -> In st (site_candidates f p) -> plant st p = sub_phrase (site_nid st) (plant_phrase st) p.
 Proof.
   intros [Hf|[Hf|[Hf|[Hf|Hf]]]] H; subst f; cbn [site_candidates] in H; in_inv; try reflexivity;
-    match goal with H : In _ (call_candidates _ _) |- _ => unfold call_candidates in H end; in_inv; reflexivity.
+    try (match goal with H : In _ (call_candidates _ _) |- _ => unfold call_candidates in H end; in_inv; reflexivity);
+    match goal with H : In _ (agg_candidates _ _) |- _ => unfold agg_candidates in H end; in_inv; reflexivity.
 Qed.
 Lemma phrase_eligible f st p : phrase_class f -> eligible f st p = eligible_phrase f st p.
 Proof. intros [Hf|[Hf|[Hf|[Hf|Hf]]]]; subst f; reflexivity. Qed.
